@@ -5,6 +5,7 @@ use crate::fmt::{FmtCampaign, Focus, OutcomeExhaustive};
 use crate::queue::concurrent::ConcCampaign;
 use crate::queue::gate::StepOut;
 use crate::queue::{self, QGen, QGenKind, QRule, QueueCampaign, QueueCase, QOp};
+use crate::sockets::{self, ConcSockCampaign, SGen, SRule, SockCampaign, Transport};
 use crate::writer::oracle::Rule;
 use crate::writer::{gen_default, FaultTree, Seam, WriterCampaign};
 
@@ -86,8 +87,91 @@ pub fn run(id: &'static str, tier: Tier, seed: u64) -> Option<Evidence> {
         }
         "C05" | "C06" | "C07" | "C19" => Some(run_writer(id, tier, seed, &ctx, sh)),
         "C08" | "C09" | "C10" | "C11" | "C15" | "C16" => Some(run_queue(id, tier, seed, &ctx, sh)),
+        "C13" | "C14" => Some(run_sockets(id, tier, seed, &ctx, sh)),
         _ => None,
     }
+}
+
+fn sgen(transport: Option<Transport>, buffered: Option<bool>, faults: bool, queued_p: f64, max_ops: usize) -> SGen {
+    SGen {
+        transport,
+        buffered,
+        faults,
+        queued_p,
+        max_ops,
+    }
+}
+
+/// socket seams (c) Unix and (d) UDP of the writer properties
+fn socket_seams(id: &str) -> Vec<(SockCampaign, u32, u32)> {
+    let (rule, faults) = match id {
+        "C05" => (Rule::Framing, false),
+        "C06" => (Rule::Conservation, false),
+        "C07" => (Rule::Fault, true),
+        "C19" => (Rule::Greedy, false),
+        _ => return vec![],
+    };
+    let names: [&'static str; 2] = match id {
+        "C05" => ["unix-buffered-framing", "udp-buffered-framing"],
+        "C06" => ["unix-buffered-conservation", "udp-buffered-conservation"],
+        "C07" => ["unix-buffered-faults", "udp-buffered-faults"],
+        _ => ["unix-buffered-greedy", "udp-buffered-greedy"],
+    };
+    vec![
+        (
+            SockCampaign { name: names[0], focus: SRule::Trace(rule), gen: sgen(Some(Transport::Unix), Some(true), faults, 0.0, 30) },
+            if faults { 600 } else { 1_500 },
+            30_000,
+        ),
+        (
+            SockCampaign { name: names[1], focus: SRule::Trace(rule), gen: sgen(Some(Transport::Udp), Some(true), faults, 0.0, 30) },
+            if faults { 400 } else { 1_500 },
+            30_000,
+        ),
+    ]
+}
+
+fn sock_campaigns(id: &str) -> Vec<(SockCampaign, u32, u32)> {
+    match id {
+        "C13" => vec![
+            (SockCampaign { name: "sock-wire-unbuffered", focus: SRule::Wire, gen: sgen(None, Some(false), true, 0.0, 12) }, 1_500, 80_000),
+            (SockCampaign { name: "sock-wire-buffered", focus: SRule::Wire, gen: sgen(None, Some(true), false, 0.0, 30) }, 1_500, 80_000),
+        ],
+        "C14" => vec![
+            (SockCampaign { name: "sock-telemetry", focus: SRule::Telemetry, gen: sgen(None, None, true, 0.3, 25) }, 2_000, 100_000),
+            (SockCampaign { name: "sock-telemetry-unix-faults", focus: SRule::Telemetry, gen: sgen(Some(Transport::Unix), None, true, 0.3, 30) }, 1_000, 50_000),
+        ],
+        _ => vec![],
+    }
+}
+
+fn run_sockets(id: &'static str, tier: Tier, seed: u64, ctx: &Ctx, sh: u32) -> Evidence {
+    let (rule,) = match id {
+        "C13" => ("generated metric strings (empty, 1 byte, multi-byte UTF-8, containing newlines, sizes clustered at the buffer capacity, 512/1432/8192 and the datagram limit: 65507 for UDP / 100 kB for Unix, one above for the error path) x blocking/non-blocking x unbuffered/buffered(capacities, default constructor) x three ToSocketAddrs forms (the slice form lists a decoy second) on real 127.0.0.1 UDP and Unix datagram sockets; unbuffered: exactly one datagram per Ok emit with payload == metric bytes, returned count == length, nothing on Err, nothing at the decoy; buffered: trace oracle with terminator '\\n', remainder on flush and drop. Non-trivial: non-ASCII or >512-byte payload, or a buffered run with >=2 datagrams; distinct by case hash.",),
+        _ => ("socket histories with real failures (oversize datagrams EMSGSIZE; Unix: receiver queue full EAGAIN, receiver closed ECONNREFUSED, re-bound) for the four socket sinks, 30% wrapped in a QueuingMetricSink; after every operation stats() must equal ground truth: sent = count/size of datagrams actually received, dropped = count/size of refused attempts derived from Err results (unbuffered: the metric; buffered: everything pending, or the oversized metric). Concurrent mode: 2..8 threads on one unbuffered sink, totals exact after join. Non-trivial: >=1 sent and >=1 dropped datagram in one history; distinct by case hash.",),
+    };
+    let mut ev = Evidence::new(id, "exploration", tier, seed, rule);
+    ev.assume("loopback UDP delivers a datagram before sendto returns or within the 2 s grace poll; Unix datagram sockets are reliable and synchronous");
+    if id == "C13" {
+        let bad = sockets::addr_resolution_checks();
+        if let Some(b) = bad.first() {
+            ev.add_violation(driver::Violation {
+                campaign: "addr-resolution".into(),
+                reason: b.clone(),
+                case: serde_json::json!({"fixed": "ToSocketAddrs yielding no address must give InvalidInput"}),
+            });
+            return ev;
+        }
+    }
+    for (c, q, t) in sock_campaigns(id) {
+        if !driver::run_random(&c, &ev, ctx, scale(tier.pick(q, t)), sh) {
+            return ev;
+        }
+    }
+    if id == "C14" {
+        driver::run_random(&ConcSockCampaign, &ev, ctx, scale(tier.pick(20, 500)), 2);
+    }
+    ev
 }
 
 fn qgen(emit_w: u32, clone_w: u32, drop_w: u32, step_w: u32, err_w: u32, panic_w: u32, handler_p: f64) -> QGenKind {
@@ -229,6 +313,7 @@ fn writer_campaigns(id: &str) -> Vec<(WriterCampaign, u32, u32)> {
             (WriterCampaign::new("mlw-conservation-tinycap", Rule::Conservation, Seam::MlwTiny, gen_default(30, false)), 5_000, 200_000),
             (WriterCampaign::new("spy-conservation", Rule::Conservation, Seam::Spy, gen_default(40, false)), 3_000, 100_000),
             (WriterCampaign::new("client-spy-conservation", Rule::Conservation, Seam::ClientSpy, gen_default(40, false)), 5_000, 150_000),
+            (WriterCampaign::new("queue-client-spy-conservation", Rule::Conservation, Seam::QueueClientSpy, gen_default(25, false)), 1_500, 40_000),
         ],
         "C07" => vec![
             (WriterCampaign::new("mlw-faults", Rule::Fault, Seam::Mlw, gen_default(30, true)), 50_000, 900_000),
@@ -258,6 +343,11 @@ fn run_writer(id: &'static str, tier: Tier, seed: u64, ctx: &Ctx, sh: u32) -> Ev
     };
     let ev = Evidence::new(id, level, tier, seed, rule);
     for (c, q, t) in writer_campaigns(id) {
+        if !driver::run_random(&c, &ev, ctx, scale(tier.pick(q, t)), sh) {
+            return ev;
+        }
+    }
+    for (c, q, t) in socket_seams(id) {
         if !driver::run_random(&c, &ev, ctx, scale(tier.pick(q, t)), sh) {
             return ev;
         }
@@ -303,5 +393,16 @@ pub fn replay(id: &'static str, campaign: &str, case: &serde_json::Value, tier: 
     try_camp!(ConcCampaign { name: "queue-deliver-concurrent", focus: QRule::Deliver });
     try_camp!(ConcCampaign { name: "queue-isolation-concurrent", focus: QRule::Isolation });
     try_camp!(ConcCampaign { name: "queue-counters-sampler", focus: QRule::Counters });
+    for pid in ["C05", "C06", "C07", "C19"] {
+        for (c, _, _) in socket_seams(pid) {
+            try_camp!(c);
+        }
+    }
+    for pid in ["C13", "C14"] {
+        for (c, _, _) in sock_campaigns(pid) {
+            try_camp!(c);
+        }
+    }
+    try_camp!(ConcSockCampaign);
     Err(format!("unknown campaign '{}'", campaign))
 }
